@@ -589,7 +589,70 @@ def default_size_case(ctx, rng, idx):
                       {'default': a, 'n_samples=1': b}, feats)
 
 
+def heterogeneous_joint_case(ctx, rng, idx):
+    """samples of a heterogeneous model are INDEPENDENT draws of one of the
+    individuals: two samples of one call coincide with probability 1 / n_ids
+    (drawing without replacement never repeats an individual), each
+    individual is drawn with probability 1 / n_ids, also when as many or
+    fewer samples than individuals are requested"""
+    n_ids = int(rng.integers(2, 6))
+    n_dim = int(rng.integers(1, 3))
+    n_samples = int(rng.integers(2, n_ids + 2))
+    wrapper = ['bare', 'composed', 'reduced'][idx % 3]
+    model = chi.HeterogeneousModel(n_dim=n_dim, n_ids=n_ids)
+    rows = rng.permutation(n_ids * n_dim).astype(float).reshape(
+        n_ids, n_dim) + 1.0
+    top = rows.flatten()
+    col = 0
+    if wrapper == 'composed':
+        model = chi.ComposedPopulationModel([chi.PooledModel(), model])
+        top = np.concatenate([[9.5], top])
+        col = 1
+    elif wrapper == 'reduced':
+        model = chi.ReducedPopulationModel(model)
+    model.set_n_ids(n_ids)
+    feats = {'family': 'heterogeneous_joint', 'n_ids': n_ids,
+             'n_samples': n_samples, 'wrapper': wrapper}
+    ctx.case(('heterogeneous_joint', n_ids, n_samples, wrapper), True,
+             sample=feats)
+    n_seeds = 600 if ctx.tier == 'quick' else 3000
+    start = int(rng.integers(0, 10 ** 6))
+    same = 0
+    first = np.zeros(n_ids, dtype=int)
+    try:
+        for sd in range(start, start + n_seeds):
+            s_ = np.asarray(model.sample(top, n_samples=n_samples, seed=sd),
+                            dtype=float)
+            a, b = s_[0, col:col + n_dim], s_[1, col:col + n_dim]
+            same += int(np.array_equal(a, b))
+            hit = [i for i in range(n_ids) if np.array_equal(a, rows[i])]
+            if len(hit) != 1:
+                ctx.violation('heterogeneous_sample_is_an_individual',
+                              'heterogeneous_row', {'sample': s_}, feats)
+                return
+            first[hit[0]] += 1
+    except Exception as e:      # noqa
+        ctx.violation_exc('sample_raises', e, {'case': feats}, feats)
+        return
+    ctx.count('independence_tests')
+    p = 1.0 / n_ids
+    if not S.binom_tail_ok(same, n_seeds, p):
+        ctx.violation('independence', 'heterogeneous_samples_not_independent',
+                      {'pairs that coincide': same, 'of': n_seeds,
+                       'expected fraction': p}, feats)
+        return
+    for i in range(n_ids):
+        if not S.binom_tail_ok(int(first[i]), n_seeds, p,
+                               alpha=S.ALPHA_TEST / n_ids):
+            ctx.violation('independence', 'heterogeneous_individuals_not_'
+                          'equally_likely', {'counts': first.tolist(),
+                                             'of': n_seeds}, feats)
+            return
+
+
 FAMILIES = [
+    Family('heterogeneous_joint', heterogeneous_joint_case, quick=24,
+           thorough=120),
     Family('default_size', default_size_case, quick=60, thorough=600),
     Family('covariate_columns', covariate_columns_case, quick=60,
            thorough=600),
